@@ -1229,10 +1229,92 @@ struct Env {
         a.z.check("argument string");
     }
 
-    static constexpr unsigned kFamilies = 8;
+    // arguments that alias the string's own buffer (std::basic_string supports all of these)
+    void op_self_alias()
+    {
+        unsigned which  = ch.pick(10);
+        std::size_t L   = m.size();
+        std::size_t room = N - L;
+        std::size_t k   = draw_pos(L);          // offset into own buffer
+        std::size_t cnt = draw_pos(L - k);      // characters taken from there
+        std::uint64_t h = vf::mix(which + 900, vf::mix(k, cnt));
+        char const* kc  = k == 0 ? "offset=0" : (k == L ? "offset=size" : "offset>0");
+        switch (which) {
+        case 0:
+            CRUMB("assign(ptr,count) own buffer", sit(kc), "m=%s k=%zu count=%zu", show(m).c_str(), k, cnt);
+            e.assign(e.data() + k, cnt);
+            m.assign(m.data() + k, cnt);
+            break;
+        case 1: {
+            Str r(m.c_str() + k);
+            CRUMB("operator=(ptr) own buffer", sit(kc), "m=%s k=%zu", show(m).c_str(), k);
+            e = e.c_str() + k;
+            m = r;
+            break;
+        }
+        case 2: {
+            Str r(m.c_str() + k);
+            CRUMB("assign(ptr) own buffer", sit(kc), "m=%s k=%zu", show(m).c_str(), k);
+            e.assign(e.c_str() + k);
+            m = r;
+            break;
+        }
+        case 3:
+            if (cnt > room) { return; }
+            CRUMB("append(ptr,count) own buffer", sit(kc, cnt == room ? "fills" : "fits"), "m=%s k=%zu count=%zu", show(m).c_str(), k, cnt);
+            e.append(e.data() + k, cnt);
+            m.append(Str(m.data() + k, cnt));
+            break;
+        case 4: {
+            if (cnt > room) { return; }
+            std::size_t idx = draw_pos(L);
+            Str piece(m.data() + k, cnt);
+            CRUMB("insert(index,ptr,count) own buffer", sit(kc, poscls(idx, L)), "m=%s index=%zu k=%zu count=%zu", show(m).c_str(), idx, k, cnt);
+            e.insert(idx, e.data() + k, cnt);
+            m.insert(idx, piece);
+            h = vf::mix(h, idx);
+            break;
+        }
+        case 5:
+            CRUMB("assign(self)", sit("-"), "m=%s", show(m).c_str());
+            e.assign(e);
+            break;
+        case 6:
+            if (L > room) { return; }
+            CRUMB("append(self)", sit(L == room ? "fills" : "fits"), "m=%s", show(m).c_str());
+            e.append(e);
+            m.append(Str(m));
+            break;
+        case 7: {
+            if (L > room) { return; }
+            std::size_t idx = draw_pos(L);
+            CRUMB("insert(index,self)", sit(poscls(idx, L)), "m=%s index=%zu", show(m).c_str(), idx);
+            e.insert(idx, e);
+            m.insert(idx, Str(m));
+            h = vf::mix(h, idx);
+            break;
+        }
+        case 8:
+            if (L > room) { return; }
+            CRUMB("operator+=(self)", sit(L == room ? "fills" : "fits"), "m=%s", show(m).c_str());
+            e += e;
+            m += Str(m);
+            break;
+        default:
+            CRUMB("assign(view of self)", sit(kc), "m=%s k=%zu count=%zu", show(m).c_str(), k, cnt);
+            e.assign(EV(e.data() + k, cnt));
+            m = Str(m.data() + k, cnt);
+            break;
+        }
+        COVER("self-alias", h);
+        check_state();
+    }
+
+    static constexpr unsigned kFamilies = 9;
     void apply(unsigned family)
     {
         switch (family) {
+        case 8: op_self_alias(); break;
         case 0: op_assign_family(); break;
         case 1: op_construct_family(); break;
         case 2: op_append_family(); break;
